@@ -2752,8 +2752,13 @@ class Recipe:
                     after_substances += step.frm[1].contents.get(substance, 0)
             after_substances += step.trash.get(substance, 0)
             delta += after_substances - before_substances
-            states += sum(2 * (elem.wells.size if isinstance(elem, Plate) else 1) for elem in (step.to[0], step.frm[0])
-                          if elem is not None and elem.name in dest_names)
+            for before, after in ((step.to[0], step.to[1]), (step.frm[0], step.frm[1])):
+                if before is not None and before.name in dest_names:
+                    pairs = zip(before.wells.flatten(), after.wells.flatten()) if isinstance(before, Plate) \
+                        else [(before, after)]
+                    # (only a well that the step changed has been rounded anew)
+                    states += sum(2 for well_before, well_after in pairs
+                                  if well_before.contents.get(substance, 0) != well_after.contents.get(substance, 0))
             magnitude += abs(before_substances) + abs(after_substances)
 
         # a net change of zero comes out as rounding noise of either sign (of the stored decimals, and of the last digits of
